@@ -238,6 +238,36 @@ def rekey_in_buffer_check():
     return out
 
 
+def kept_doc_handle_check():
+    """a document handle taken before the document had any content (doc = job.doc) stays THE handle: writes through it, interleaved with
+    further job.doc accesses, inside and outside signac.buffered(), all land in the one document"""
+    import signac
+    out = []
+    for buffered in (False, True):
+        for target in ("job", "project"):
+            with project_scratch() as p:
+                try:
+                    obj = p.open_job({"e": 1}).init() if target == "job" else p
+                    doc = obj.doc
+                    same = obj.doc is doc
+                    model = {}
+                    ctxm = signac.buffered() if buffered else contextlib.nullcontext()
+                    with ctxm:
+                        doc["a"] = 1
+                        obj.doc["b"] = 2
+                        doc["c"] = {"n": [1]}
+                        model.update(a=1, b=2, c={"n": [1]})
+                        inside = (norm(doc()), norm(obj.doc()))
+                    fn = obj.fn("signac_job_document.json") if target == "job" else p.fn("signac_project_document.json")
+                    after = (norm(doc()), norm(obj.doc()), on_disk(fn))
+                    if not same or inside != (model, model) or after != (model, model, model):
+                        out.append((f"{target}:{buffered}", f"{target} document handle taken while the document was empty (buffered={buffered}): same object on re-access: {same}; "
+                                                            f"inside {inside}, afterwards (kept handle, re-accessed, file) {after}; plain dict {model}"))
+                except Exception as e:
+                    out.append((f"{target}:{buffered}", f"{target} document handle taken while empty (buffered={buffered}) raised {type(e).__name__}: {str(e)[:200]}"))
+    return out
+
+
 def moved_handle_doc_check():
     """a handle whose document was used before job.move(other_project): afterwards its document is the moved job's document (read, write,
     file in the new project, fresh handle), buffered or not"""
@@ -336,6 +366,10 @@ def run(tier="quick", seed=0):
         failures.append({"key": "doc:rekey-inside-buffer:" + sig, "description": msg,
                          "script": script_header() + "sys.path.insert(0, '/verif')\nfrom pybound.c05 import rekey_in_buffer_check\nr = rekey_in_buffer_check()\nassert not r, r\n"})
     evals += 3
+    for sig, msg in kept_doc_handle_check():
+        failures.append({"key": "doc:kept-handle:" + sig, "description": msg,
+                         "script": script_header() + "sys.path.insert(0, '/verif')\nfrom pybound.c05 import kept_doc_handle_check\nr = kept_doc_handle_check()\nassert not r, r\n"})
+    evals += 4
     for sig, msg in moved_handle_doc_check():
         failures.append({"key": "doc:moved-handle:" + sig, "description": msg,
                          "script": script_header() + "sys.path.insert(0, '/verif')\nfrom pybound.c05 import moved_handle_doc_check\nr = moved_handle_doc_check()\nassert not r, r\n"})
